@@ -1,6 +1,7 @@
 package main
 
 import (
+	"context"
 	"fmt"
 	"math/rand"
 	"os"
@@ -10,6 +11,7 @@ import (
 	"sort"
 	"strings"
 	"sync"
+	"time"
 
 	seccomp "github.com/elastic/go-seccomp-bpf"
 
@@ -465,8 +467,20 @@ func c18Consumers(run *vlib.Run, o *vlib.Oracles, ts []*vlib.Target, prof, elfAm
 		}
 		casePath := filepath.Join(th.Dir, "case.json")
 		writeJSON(casePath, cc)
-		cmd := exec.Command(sandbox, "-policy", profile, elfAmd64, "probe", casePath)
+		// under a wrong profile the target's own runtime may be denied what it needs and never end: watchdog
+		ctx, cancel := context.WithTimeout(context.Background(), 60*time.Second)
+		cmd := exec.CommandContext(ctx, sandbox, "-policy", profile, elfAmd64, "probe", casePath)
+		cmd.WaitDelay = 2 * time.Second
 		out, err := cmd.Output()
+		timedOut := ctx.Err() == context.DeadlineExceeded
+		cancel()
+		if timedOut {
+			// a wall-clock watchdog is no verdict: what the profile lacks is judged from the emitted list above
+			run.Count("sandbox_consumer_watchdog", 1)
+			run.SoftInconclusive(fmt.Sprintf("the probing target did not finish within 60 s under the profile emitted by the profiler (-b %v)", bl))
+			th.Remove()
+			return
+		}
 		if err != nil {
 			run.Violation("sandbox-rejects-profile", fmt.Sprintf("cmd/sandbox fails with a profile emitted by the profiler (-b %v): %v: %s", bl, err, tail(string(out), 300)), map[string]any{"check": "C18", "blacklist": bl})
 			th.Remove()
@@ -521,7 +535,10 @@ func c18Consumers(run *vlib.Run, o *vlib.Oracles, ts []*vlib.Target, prof, elfAm
 		os.WriteFile(filepath.Join(modDir, "go.mod"), []byte("module genprofile\n\ngo 1.18\n\nrequire github.com/elastic/go-seccomp-bpf v0.0.0\n\nreplace github.com/elastic/go-seccomp-bpf => "+vlib.RepoDir()+"\n"), 0o644)
 		copyFile(filepath.Join(modDir, "go.sum"), filepath.Join(vlib.RepoDir(), "go.sum"))
 		os.WriteFile(filepath.Join(modDir, "main.go"), []byte("package main\n\nimport \"fmt\"\n\nfunc main() {\n\tfor _, g := range SeccompProfile.Syscalls {\n\t\tfor _, n := range g.Names {\n\t\t\tfmt.Println(n)\n\t\t}\n\t}\n\tfmt.Println(\"default\", uint32(SeccompProfile.DefaultAction), len(SeccompProfile.Syscalls))\n}\n"), 0o644)
-		cmd := exec.Command("go", "run", ".")
+		ctx2, cancel2 := context.WithTimeout(context.Background(), 300*time.Second)
+		defer cancel2()
+		cmd := exec.CommandContext(ctx2, "go", "run", ".")
+		cmd.WaitDelay = 2 * time.Second
 		cmd.Dir = modDir
 		out, err := cmd.CombinedOutput()
 		want := map[string]bool{}
